@@ -6,6 +6,8 @@ UNITS = {'fs': dict(wrap='wrap.cc', new_block=64),
          'fsrs4': dict(wrap='wrap.cc', new_block=64, cxxflags=['-DVERIF_READ_SIZE=4'], cuts=[r'^_ZN5phosg8io_errorC1Ei$'],
                        src_subst={'Filesystem.cc': [(r'static const ssize_t read_size = 16 \* 1024;', 'static const ssize_t read_size = VERIF_READ_SIZE;', 2)]}),
          # same TU; the cannot_open_file(const string&) constructor (what() text concatenation only) is an external no-op
+         # phosg::fgets uses std::deque<std::string>: engine/shim deque (fixed capacity 8 blocks)
+         'fsd': dict(wrap='wrap.cc', shim=True, new_block=600),
          'fsx': dict(wrap='wrap.cc', new_block=64, cuts=[r'^_ZN5phosg16cannot_open_fileC1ERKNSt7__cxx1112basic_string'])}
 BOUNDS = ''
 STUBS = []
@@ -41,4 +43,12 @@ def queries(tier):
         qs.append(dict(name='readall_fd_rs4_len%d' % S, unit='fsrs4', harness='h_readall.c', defs={'S': S, 'RS': 4}, unwind=max(S, 4) + 4, timeout=900, mem_gb=10, flags=FS0,
                        desc='read_all(fd) over a %d-byte symbolic source delivered in every possible chunking (each read returns 1..remaining bytes, then 0), optional read fault: result == source or io_error' % S,
                        bounds='source length == %d; <= %d read calls' % (S, S + 2)))
+    for S in ([0, 3, 4, 5, 8] if tier == 'quick' else range(0, 10)):
+        qs.append(dict(name='readall_file_rs4_len%d' % S, unit='fsrs4', harness='h_readall_file.c', defs={'S': S, 'RS': 4}, unwind=max(S, 4) + 4, timeout=900, mem_gb=10, flags=FS0,
+                       desc='read_all(FILE*) over a %d-byte symbolic stream, fread per C contract (short only at EOF), block size 4: result == stream' % S,
+                       bounds='stream length == %d, block size 4 (substituted for 16384)' % S))
+    for L, nl in [(0, 0), (0, 1), (1, 1), (254, 1), (255, 0), (255, 1), (256, 1), (300, 0)]:
+        qs.append(dict(name='fgets_len%d_nl%d' % (L, nl), unit='fsd', harness='h_fgets.c', defs={'LEN': L, 'HAS_NL': nl}, unwind=262, timeout=1200, mem_gb=12, flags=FS0,
+                       desc='phosg::fgets on a line of %d symbolic bytes %s, ::fgets per C contract with optional fault: whole line or io_error' % (L, 'newline-terminated + 2 following bytes' if nl else 'ended by end of data'),
+                       bounds='line length == %d' % L))
     return qs
